@@ -15,7 +15,27 @@ def gen_case(seed):
     import random
 
     r = random.Random(seed)
-    kind = r.choice(["convert", "convert", "convert", "align_tensor", "align_term", "align_gauss", "materialize", "align_tensors"])
+    kind = r.choice(["convert", "convert", "convert", "align_tensor", "align_term", "align_gauss", "materialize", "align_tensors", "rename_onto"])
+    if kind == "rename_onto":
+        # lazy integer inputs (a Variable or a Slice) substituted for one input while another, unsubstituted input carries
+        # the same name: the tensor must materialise the value as an index range (a diagonal); other inputs may be
+        # substituted by numbers / renamed at the same time
+        k = r.randint(2, 4)
+        names = r.sample(NAMES, k)
+        m = r.randint(1, 3)
+        use_slice = r.random() < 0.5
+        step = r.randint(1, 2) if use_slice else 1
+        start = r.randint(0, 2) if use_slice else 0
+        n = start + step * (m - 1) + 1 + (r.randint(0, 1) if use_slice else 0)
+        i_src, i_dst = r.sample(range(k), 2)
+        sizes = [r.randint(1, 3) for _ in range(k)]
+        sizes[i_src], sizes[i_dst] = n, m
+        others = []
+        for j_ in range(k):
+            if j_ not in (i_src, i_dst) and r.random() < 0.5:
+                others.append([names[j_], r.choice(["num", "rename", "rename_same_size_onto_dst"])])
+        return dict(kind=kind, names=names, sizes=sizes, src=names[i_src], dst=names[i_dst], slice=[start, step] if use_slice else None,
+                    others=others, eshape=[r.randint(1, 2) for _ in range(r.randint(0, 1))], order=r.random() < 0.5, a=r.randrange(9973))
     if kind == "align_tensors":
         # several tensors over overlapping name sets listed in different orders (sizes coincide in half of the cases)
         k = r.randint(2, 3)
@@ -307,6 +327,73 @@ class C19(Prop):
         stt.count("completed")
         if want != names:
             stt.mark_nontrivial(case_hash(case))
+
+    def check_rename_onto(self, case, stt):
+        from collections import OrderedDict
+
+        from funsor import Bint, Tensor, Variable
+        from funsor.terms import Slice
+
+        names, sizes = list(case["names"]), dict(zip(case["names"], case["sizes"]))
+        eshape = tuple(case["eshape"])
+        data = fill(tuple(sizes[n_] for n_ in names) + eshape, case["a"], "real")
+        x = Tensor(data, OrderedDict((n_, Bint[sizes[n_]]) for n_ in names))
+        src, dst = case["src"], case["dst"]
+        m, n = sizes[dst], sizes[src]
+        if case["slice"]:
+            start, step = case["slice"]
+            stop = min(n, start + step * (m - 1) + 1)
+            value = Slice(dst, start, stop, step, n)
+            f = lambda v: start + step * v  # noqa: E731
+        else:
+            value = Variable(dst, Bint[n])
+            f = lambda v: v  # noqa: E731
+        subs = [(src, value)]
+        fixed, renamed = {}, {}
+        for nm, how in case["others"]:
+            if how == "num":
+                fixed[nm] = sizes[nm] - 1
+                subs.append((nm, fixed[nm]))
+            elif how == "rename":
+                renamed[nm] = "zz_" + nm
+                subs.append((nm, renamed[nm]))
+            elif sizes[nm] == m:
+                # a second input renamed onto dst as well (three-fold diagonal)
+                renamed[nm] = dst
+                subs.append((nm, dst))
+        if case["order"]:
+            subs = subs[::-1]
+        try:
+            y = x(**OrderedDict(subs))
+        except Exception as e:
+            raise Decline("substitution-raised:" + innermost_funsor_frame(e))
+        want_inputs = {nm: sizes[nm] for nm in names if nm != src and nm not in fixed and nm not in renamed}
+        want_inputs.update({new: sizes[nm] for nm, new in renamed.items() if new != dst})
+        got_inputs = {k_: d_.size for k_, d_ in y.inputs.items()}
+        if got_inputs != want_inputs:
+            raise Violation("rename-onto-inputs", f"inputs {got_inputs} expected {want_inputs}: {case}")
+        if not isinstance(y, Tensor):
+            raise Decline("result-stays-lazy:" + type(y).__name__)
+        out_names = list(y.inputs)
+        for idx in itertools.product(*[range(want_inputs[k_]) for k_ in out_names]):
+            pt = dict(zip(out_names, idx))
+            src_idx = []
+            for nm in names:
+                if nm == src:
+                    src_idx.append(f(pt[dst]))
+                elif nm in fixed:
+                    src_idx.append(fixed[nm])
+                elif nm in renamed:
+                    src_idx.append(pt[renamed[nm]])
+                else:
+                    src_idx.append(pt[nm])
+            want = data[tuple(src_idx)]
+            got = y.data[idx]
+            if got.shape != want.shape or not np.array_equal(got, want):
+                raise Violation("rename-onto-value", f"at {pt}: {np.asarray(got).tolist()} expected x{tuple(src_idx)} = {np.asarray(want).tolist()}: {case}")
+        stt.count("completed")
+        stt.count("rename-onto:" + ("slice" if case["slice"] else "variable") + (":src-first" if names.index(src) < names.index(dst) else ":dst-first"))
+        stt.mark_nontrivial(case_hash(case))
 
     def check_materialize(self, case, stt):
         import random
